@@ -89,6 +89,11 @@ func genCase(t *rapid.T) Case {
 	if c.Conf || c.BadPrefix {
 		c.NoTrusted = false // configured lists and the prefix state need a configured trusted signer
 	}
+	if c.NoTrusted {
+		// without a trusted signer a location announced by the sibling CA's certificate stays unloaded; see the remark on
+		// the flaky origin below: no Cleanup in the middle of the run
+		c.Cleanup = false
+	}
 	if c.Flaky > 0 {
 		// first-use stampede: every goroutine starts with a handshake naming location 0 (listed / unlisted alternating), so
 		// that several first-use loads of one location overlap while the origin's first answers are error pages
